@@ -811,6 +811,62 @@ fn test_duration(c: &Case, cx: &mut Cx) -> CaseResult {
             }
         }
     }
+    // sums relative to a datetime conserve the end point: r + (a + b) == (r + a) + b, and the
+    // same with -b (the documented construction: add both spans to the reference one after the
+    // other, then take the balanced difference from the reference)
+    if rf.has_reference() {
+        let step = |from: &Ref, f: &[i128; 10]| -> Option<(Ref, i128)> {
+            let pos = from.add(&parts(f)).ok()?;
+            let next = match from {
+                Ref::Civil(_) => Ref::Civil(rz::civil_parts(pos)),
+                Ref::Zoned(z, _) => Ref::Zoned(z.clone(), pos),
+                _ => return None,
+            };
+            Some((next, pos))
+        };
+        let neg_b = {
+            let mut f = fb;
+            for v in f.iter_mut() {
+                *v = -*v;
+            }
+            f
+        };
+        for (name, fb2, res) in [
+            ("checked_add", fb, with_rel(c, &rf, |rel| a.checked_add((b, rel.unwrap())))),
+            ("checked_sub", neg_b, with_rel(c, &rf, |rel| a.checked_sub((b, rel.unwrap())))),
+        ] {
+            let what = format!("{:?}.{name}({:?}, relative={})", c.a, c.b, refname(&rf));
+            let Some((mid, _)) = step(&rf, &fa) else { continue };
+            let Some((_, want)) = step(&mid, &fb2) else { continue };
+            let Ok(s) = res else { continue };
+            let fs = span_fields(&s);
+            let Ok(got) = rf.add(&parts(&fs)) else { continue };
+            cx.class("relative add/sub: end point compared");
+            cx.nt_if(largest_idx(&fa) <= 3 || largest_idx(&fb) <= 3);
+            if got != want {
+                // the balanced difference itself is C07's subject; its listed finding (the end
+                // point is the later instant of a fold) shows through here
+                let in_fold = match &rf {
+                    Ref::Zoned(z, _) => {
+                        let near = |t: i128| z.rz.transitions_between((t.div_euclid(NS_PER_SEC) - 90_000) as i64, (t.div_euclid(NS_PER_SEC) + 90_000) as i64).iter().any(|(tt, info)| (info.off as i64) < z.rz.lookup(*tt - 1).off as i64 || info.off as i64 - z.rz.lookup(*tt - 1).off as i64 >= 86_400);
+                        near(want) || near(rf.origin()) || near(mid.origin())
+                    }
+                    _ => false,
+                };
+                if in_fold {
+                    cx.class("relative add/sub: end point within a day of a fold or day-skipping gap (C07's listed finding; no verdict)");
+                } else {
+                    cx.soft_fail(format!("relative-{name}-moves-end-point:relative={}", refname(&rf)), format!("{what} = {s:?}: reference + result = {got}, but (reference + a) {} b = {want}", if name == "checked_add" { "+" } else { "-" }));
+                }
+            }
+            let lg = largest_idx(&fa).min(largest_idx(&fb));
+            for i in 0..lg {
+                if fs[i] != 0 {
+                    cx.soft_fail(format!("relative-{name}-unit-above-operands:relative={}", refname(&rf)), format!("{what} = {s:?}: {} is non-zero", UNIT_NAMES[i]));
+                }
+            }
+        }
+    }
     // uniform units: sums and differences are exact nanosecond counts
     let from = rf.uniform_from();
     if largest_idx(&fa) >= from && largest_idx(&fb) >= from {
